@@ -678,6 +678,29 @@ fn lib_b_runtime() -> Runtime<NoCtx> {
     .expect("runtime")
 }
 
+/// 96 Rust types that nothing but the cold race ever mentions: asking for a function under a
+/// signature that contains one registers it, so the type registry grows (and, being a hash
+/// table, moves) several times while other threads look types up.
+#[derive(Clone, PartialEq)]
+pub struct Tag<const N: usize>(u64);
+pub const N_NOVEL: usize = 96;
+
+fn novel_one<const N: usize>(pkg: &mut Package<NoCtx>, name: &str) -> Result<Option<u64>, String> {
+    pkg.get_function::<fn(Val<Tag<N>>) -> u64>(name).map(|_| None).map_err(|e| e.to_string())
+}
+
+macro_rules! novel_table {
+    ($($n:literal),*) => {
+        fn novel(pkg: &mut Package<NoCtx>, n: usize, name: &str) -> Result<Option<u64>, String> {
+            match n {
+                $($n => novel_one::<$n>(pkg, name),)*
+                _ => Err("no such type".into()),
+            }
+        }
+    };
+}
+novel_table!(0,1,2,3,4,5,6,7,8,9,10,11,12,13,14,15,16,17,18,19,20,21,22,23,24,25,26,27,28,29,30,31,32,33,34,35,36,37,38,39,40,41,42,43,44,45,46,47,48,49,50,51,52,53,54,55,56,57,58,59,60,61,62,63,64,65,66,67,68,69,70,71,72,73,74,75,76,77,78,79,80,81,82,83,84,85,86,87,88,89,90,91,92,93,94,95);
+
 /// One racing thread: build a runtime, compile, try a matrix of signatures.
 fn cold_thread(t: usize, variant: u64, x: u64) {
     {
@@ -758,6 +781,16 @@ fn cold_thread(t: usize, variant: u64, x: u64) {
     check("same", "fn(u64) -> u64", variant == 0, pkg.get_function::<fn(u64) -> u64>("same").map(|k| Some(k.call(x))).map_err(|e| e.to_string()), Some(x + 1));
     check("same", "fn(u32) -> u32", variant != 0, pkg.get_function::<fn(u32) -> u32>("same").map(|k| Some(k.call(7) as u64)).map_err(|e| e.to_string()), Some(9));
     check("nope", "fn(u64) -> u64", false, pkg.get_function::<fn(u64) -> u64>("nope").map(|_| None).map_err(|e| e.to_string()), None);
+    // a stream of never-seen types, in an order that depends on the thread, mixed with lookups
+    // of types that are long known
+    for j in 0..N_NOVEL {
+        let n = (j * 7 + t * 29) % N_NOVEL;
+        let r = novel(&mut pkg, n, &f);
+        check(&f, "fn(Val<Tag<n>>) -> u64", false, r, None);
+        if j % 8 == 7 {
+            check(&g, "fn(Val<T24>, u64) -> u64", true, pkg.get_function::<fn(Val<T24>, u64) -> u64>(&g).map(|k| Some(k.call(Val(T24::new(30 + tt)), x))).map_err(|e| e.to_string()), Some(30 + tt + x));
+        }
+    }
     let _ = take_hostlog();
     drop(pkg);
     drop(rt);
